@@ -274,12 +274,15 @@ def _value_returned(v, e):
 
 def check_termination(out, facts):
     cfg = facts.cfg
-    audited = {'codec::decode_vec_chunked': 'K2: remaining strictly decreases by chunk >= 1',
-               '<[T; N] as Decode>::decode_into': 'R02.2: count strictly increases towards N'}
+    chunk_fn = roles(facts).get('chunk')
+    audited = {'<[T; N] as Decode>::decode_into': 'R02.2: count strictly increases towards N'}
+    if chunk_fn:
+        audited[fkey(chunk_fn)] = 'K2: remaining strictly decreases by chunk >= 1'
+    from .c04 import _is_counter_star
     n = 0
     for f, kind in decoder_fns(facts):
         t, v, ev = wire.infer_decoder_fn(facts, f)
-        own = abstract_helpers(t, {'decode_vec_chunked'}) if fkey(f) != 'codec::decode_vec_chunked' else t
+        own = abstract_helpers(t, {role_name(facts, 'chunk')}) if role_of(facts, f) != 'chunk' else t
         for x in sym.walk(own):
             if x[0] != 'star':
                 continue
@@ -288,7 +291,8 @@ def check_termination(out, facts):
             key = 'loop in %s over %s [%s]' % (fkey(f), sym.vstr(src)[:50], cfg)
             ok = False
             if src == ('loop',):
-                ok = fkey(f) in audited
+                # `while i < n { ..; i += 1 }` with an immutable bound, or one of the audited counter loops
+                ok = fkey(f) in audited or _is_counter_star(x, None)[0] is not None
             elif isinstance(src, tuple) and src[0] == 'adt' and src[1].endswith('ops::range::Range'):
                 ok = True
             elif isinstance(src, tuple) and src[0] == 'call' and src[1] in ('iter', 'iter_mut', 'chunks', 'into_iter'):
